@@ -29,7 +29,11 @@ def floors(tier):
 
 def plan(tier, seed):
     q = tier == "quick"
-    return [{"kind": "cores", "cls": cls, "stream": i, "n": 120 if q else 1500, "env": {"REUSE_Z3_SOLVER": str(i % 2)}} for cls in CLASSES for i in range(2 if q else 6)]
+    S = [{"kind": "cores", "cls": cls, "stream": i, "n": 120 if q else 1500, "env": {"REUSE_Z3_SOLVER": str(i % 2)}} for cls in CLASSES for i in range(2 if q else 6)]
+    # the same with a conversion cache of a few entries (what a solver with more than 10000 constraints meets with the
+    # default size): the table that leads from a Z3 term back to the constraint that was added must not depend on it
+    S += [{"kind": "cores", "cls": cls, "stream": 10 + i, "n": 80 if q else 800, "small_cache": 6, "env": {"REUSE_Z3_SOLVER": str(i % 2)}} for cls in CLASSES for i in range(1 if q else 2)]
+    return S
 
 
 def run_shard(spec, res):
@@ -42,6 +46,11 @@ def run_shard(spec, res):
     rng = random.Random(f"{spec['seed']}:{PID}:{spec['cls']}:{spec.get('stream')}")
     cls = getattr(claripy, spec["cls"])
     cfg = {"cls": spec["cls"], "reuse": int(spec["env"]["REUSE_Z3_SOLVER"]), "track": True}
+    if spec.get("small_cache"):
+        cfg["ast_cache_size"] = spec["small_cache"]
+        claripy.backends.z3._ast_cache_size = spec["small_cache"]
+        claripy.backends.z3._tls.__dict__.pop("ast_cache", None)
+        res.count("small_cache_shards")
 
     for it in range(spec["n"]):
         al = H.Alphabet(rng, w=3, nvars=rng.choice([2, 3, 4]), nbools=0)
